@@ -109,6 +109,7 @@ type harnessEvidence struct {
 	Unconfirmed    int                    `json:"unconfirmed_candidates"`
 	Confirmed      int                    `json:"confirmed_violations"`
 	Nondet         map[string]int64       `json:"nondeterminism_sources,omitempty"`
+	SolverCross    map[string]string      `json:"solver_crosscheck,omitempty"`
 	ModelVsPG      int                    `json:"sql_model_vs_pg_query_checked"`
 	ModelVsPGDisagree int                 `json:"sql_model_vs_pg_query_disagreements"`
 	DomDecided     int64                  `json:"byte_domain_decisions"`
@@ -168,6 +169,7 @@ func cmdRun(args []string) int {
 	var samples []string
 	var totalPaths, totalDecs, totalTraces int64
 	violations := 0
+	crossDone := false
 	knownHit := map[string]bool{}
 	exit := 0
 	for _, hr := range runs {
@@ -408,6 +410,38 @@ func cmdRun(args []string) int {
 			fmt.Printf("VIOLATION property=%s replay=%s\n", prop, rp)
 			fmt.Printf("  harness=%s assertion=%s site=%s tags=%v input: %s\n", hr.Harness, id, confirmed.Site, confirmed.Tags, confirmed.Text)
 			exit = 1
+		}
+		// thorough tier: the same harness again with every branch routed through the solver
+		// (byte domains off), once per alternative back end; path counts and assertion counters
+		// must agree with the main run
+		if tier == "thorough" && ex.Paths >= 100 && ex.Paths <= 6000 && !crossDone && os.Getenv("VERIF_CROSSCHECK") != "0" {
+			crossDone = true
+			he.SolverCross = map[string]string{}
+			saved := domainMode
+			domainMode = "off"
+			for _, sk := range []string{"z3", "cvc5"} {
+				ex2 := NewExplorer(ld.prog, entry, hr.Harness, hr.Params, runtime.NumCPU())
+				ex2.solverK = sk
+				ex2.traceEvery = 0
+				if err := ex2.Run(); err != nil {
+					he.SolverCross[sk] = "not run: " + err.Error()
+					continue
+				}
+				same := ex2.Paths == ex.Paths && ex2.UnkN == 0
+				for id, a := range ex.Asserts {
+					b := ex2.Asserts[id]
+					if b == nil || a.Checked != b.Checked || a.Violated != b.Violated {
+						same = false
+					}
+				}
+				if same {
+					he.SolverCross[sk] = fmt.Sprintf("agrees: %d paths, %d queries, all branches decided by %s", ex2.Paths, ex2.Queries, sk)
+				} else {
+					he.SolverCross[sk] = fmt.Sprintf("DISAGREES: %d paths vs %d", ex2.Paths, ex.Paths)
+					fmt.Printf("NOTE: solver cross-check with %s disagrees on %s %v (inconclusive run)\n", sk, hr.Harness, hr.Params)
+				}
+			}
+			domainMode = saved
 		}
 		he.Wall = time.Since(th).Seconds()
 		hes = append(hes, he)
